@@ -31,11 +31,28 @@ F_mix3 == << Mk(1, LA2, "e", FALSE, <<aCp, col(2)>>, <<aLo, aHi>>, 11, 12, FALSE
 F_sep3 == << Mk(1, LA2, "e", FALSE, <<col(1), aRp, col(2)>>, <<>>, 0, 0, TRUE, FALSE, FALSE),
              Mk(3, LA2, "p", FALSE, <<col(2), aRp>>, <<aLo, aCp>>, 112, 0, FALSE, FALSE, FALSE),
              Mk(2, LB2, "p", FALSE, <<col(2), aRp, col(3)>>, <<>>, 0, 0, TRUE, FALSE, FALSE) >>
+(* statements submitted as TEXT by threads that share nothing but the module: separate connections over different
+   ledgers; every thread can be descheduled inside the parser *)
+F_parse == << Text(Mk(1, LA2, "e", FALSE, <<col(2), col(3)>>, <<aHi>>, 0, 12, TRUE, FALSE, FALSE), 2),
+              Text(Mk(2, LB2, "p", FALSE, <<col(3)>>, <<>>, 0, 0, TRUE, FALSE, FALSE), 2) >>
+F_parse3 == << Text(Mk(1, LA2, "e", FALSE, <<col(2)>>, <<aLo>>, 12, 0, FALSE, FALSE, FALSE), 1),
+               Text(Mk(2, LB2, "e", FALSE, <<aCp, col(3)>>, <<>>, 0, 0, TRUE, FALSE, FALSE), 1),
+               Text(Mk(1, LA2, "e", FALSE, <<col(2), aRp>>, <<>>, 0, 0, TRUE, FALSE, FALSE), 1) >>
+(* scans of ONE typed table of one connection advancing row by row; the second statement a selection *)
+F_typed == << Ty(Mk(4, LM, "x", FALSE, <<col(2), aRp, col(3)>>, <<>>, 0, 0, TRUE, FALSE, FALSE), 1),
+              Ty(Mk(4, LM, "x", FALSE, <<col(3), aRp>>, <<aLo>>, 43, 0, FALSE, FALSE, FALSE), 1) >>
+(* three threads: two on one typed table, the third on another typed table of the same connection *)
+F_typed3 == << Ty(Mk(4, LM2, "x", FALSE, <<col(2), aRp>>, <<>>, 0, 0, TRUE, FALSE, FALSE), 1),
+               Ty(Mk(4, LM2, "x", FALSE, <<aRp, col(3)>>, <<>>, 0, 0, TRUE, FALSE, FALSE), 1),
+               Ty(Mk(4, LM2, "x", FALSE, <<col(1), aRp>>, <<>>, 0, 0, TRUE, FALSE, FALSE), 2) >>
 FamilyJobs(name) ==
     CASE name = "params" -> F_params [] name = "star" -> F_star [] name = "rows" -> F_rows
       [] name = "tables" -> F_tables [] name = "mix3" -> F_mix3 [] name = "sep3" -> F_sep3
+      [] name = "parse" -> F_parse [] name = "parse3" -> F_parse3
+      [] name = "typed" -> F_typed [] name = "typed3" -> F_typed3
 
-Families == IF Family = "all" THEN {"params", "star", "rows", "tables", "mix3", "sep3"} ELSE {Family}
+Families == IF Family = "all" THEN {"params", "star", "rows", "tables", "mix3", "sep3", "parse", "parse3", "typed", "typed3"}
+            ELSE {Family}
 JobsOf(f) == [t \in Threads |-> IF t <= Len(FamilyJobs(f)) THEN FamilyJobs(f)[t] ELSE Job0]
 FamilyOf(js) == CHOOSE f \in Families : JobsOf(f) = js
 SInit == (\E f \in Families : InitWith(JobsOf(f))) /\ turn = 0 /\ hist = <<>>
